@@ -44,9 +44,9 @@ TEXT = {
          "Coq proof + differential correspondence + monitor"),
  "C14": ("Theorems: for all histories every write making a run Paused/Cancelled/Completed is, for the hook consumer of that state, in the outbox, or at/after its committed position, or the hook returned nil for that run, or the run's data was deleted; a failing hook is never acknowledged; an event of another state is acknowledged without invoking the hook (every state). " + ENGINE_Q,
          TRUST, "Coq proof (delivery + publish invariants over all histories; handler facts) + differential correspondence + at-quiescence monitor"),
- "C15": ("Theorems (all histories): a deletion request is accepted only for Completed/Cancelled/DataDeleted runs; the scrub keeps status and identity and bumps the version; an accepted request is in the outbox, or at/after the delete consumer's position, or the run is DataDeleted (never lost). " + ENGINE_Q,
+ "C15": ("Theorems (all histories): a deletion request is accepted only for Completed/Cancelled/DataDeleted runs; the scrub keeps status and identity and bumps the version; an accepted request is in the outbox, or at/after the delete consumer's position, or the run is DataDeleted (never lost); in a fault-free state the delete handler serves a request whatever state the run is in, also a redelivered one (every world). " + ENGINE_Q,
          TRUST, "Coq proof (token theorem + delivery invariant) + differential correspondence + at-quiescence monitor"),
- "C16": ("Theorems (all histories): identity fields constant, versions consecutive, update time monotone, StatusDescription of the written status; the object changes only with a status write or the scrub; every function sees the persisted object. " + ENGINE_Q,
+ "C16": ("Theorems (all histories): identity fields constant, versions consecutive, update time monotone, StatusDescription of the written status; the object changes only with a status write or the scrub; every function sees the persisted object; conversely, in a fault-free state a declared destination (self-loop included) returned with nil error is written (every world). " + ENGINE_Q,
          TRUST, "Coq proof (token theorem over all histories) + differential correspondence + monitor"),
  "C17": ("Theorems: memrecordstore refines the reference store for every operation sequence including caller mutations (simulation relation); paging theorem for all contents, filters, orders and page sizes. Correspondence: the real adapter on exhaustive short and random long sequences.",
          TRUST, "Coq proof (refinement by simulation, induction over op sequences) + differential correspondence"),
